@@ -33,9 +33,8 @@ ASSUMPTIONS = ["float64 CPU, 1 thread", "scf_eps 1e-10 (SCF noise is 2-3 orders 
                "bitwise equality is demanded only between layouts that differ in padding coordinate values alone",
                "excited-state force comparison only when the active root is >= 0.05 eV from its neighbours"]
 REQUIRED_MONITORS = ["rows_compared", "padding_only_pairs", "swap_pairs", "cis_rows_compared", "md_rows_compared",
-                     "sp2_calls", "perm_layouts"]
+                     "sp2_calls", "perm_layouts", "parser_calls_checked"]
 CASE_TIMEOUT = 900.0
-BUDGET_S = {"quick": 200, "thorough": 1700}
 
 EPS = 1e-10
 A_E, A_F, A_Q, A_EMO, A_EXC, A_MU = 1e-7, 5e-6, 1e-7, 1e-6, 1e-6, 5e-6
@@ -222,6 +221,31 @@ def setup_worker():
         _G["diis_error"] = repr(exc)
     pr.install()
     _G["probes"] = pr
+    # invariant at a hook: everything Parser.forward returns (index maps, pair list, block positions) against an
+    # independent plain-loop enumeration, on every call made while a case runs
+    import seqm.basics as basics
+
+    from vlib.mon_c05 import MethodWrap, parser_compare, parser_reference
+
+    _G["parser_checks"] = 0
+    _G["parser_problems"] = []
+
+    def hook(orig, obj, molecule, *a, **k):
+        out = orig(obj, molecule, *a, **k)
+        try:
+            if float(obj.outercutoff) >= 1e9 and molecule.species.numel() <= 400:
+                ref = parser_reference(molecule.species.tolist(), molecule.coordinates.detach().tolist(), cutoff=None)
+                probs = parser_compare(out, ref)
+                _G["parser_checks"] += 1
+                if probs and len(_G["parser_problems"]) < 5:
+                    _G["parser_problems"].append({"problems": probs, "species": molecule.species.tolist()})
+        except Exception as exc:  # noqa: BLE001  (a monitor must never break the call it watches)
+            _G["parser_monitor_error"] = repr(exc)
+        return out
+
+    w = MethodWrap(basics.Parser, "forward", hook)
+    w.__enter__()
+    _G["parser_wrap"] = w
 
 
 def _norb(Z, method):
@@ -821,13 +845,24 @@ def _run_md(case):
 
 def run_case(case):
     kind = case.get("kind", "sp")
+    n0 = _G.get("parser_checks", 0)
+    _G["parser_problems"] = []
     if kind == "sp":
-        return _run_sp(case)
-    if kind == "cis":
-        return _run_cis(case)
-    if kind == "md":
-        return _run_md(case)
-    return {"harness_error": "unknown case kind %r" % kind}
+        res = _run_sp(case)
+    elif kind == "cis":
+        res = _run_cis(case)
+    elif kind == "md":
+        res = _run_md(case)
+    else:
+        return {"harness_error": "unknown case kind %r" % kind}
+    res.setdefault("monitors", {})["parser_calls_checked"] = _G.get("parser_checks", 0) - n0
+    if _G.get("parser_problems"):
+        res.setdefault("violations", []).append({"clause": "parser-output-differs-from-independent-enumeration", "mech": None,
+                                                 "detail": {"witnesses": _G["parser_problems"][:3], "case_kind": kind}})
+        res.setdefault("margins", {})["parser_output_exact"] = 2.0
+    elif _G.get("parser_checks", 0) > n0:
+        res.setdefault("margins", {})["parser_output_exact"] = 0.0
+    return res
 
 
 def summarize(cases, results, report):
